@@ -114,10 +114,11 @@ def run(P, rep, tier):
     r3 = rep.rule('C02-R3', 'canonical header rendering: sorted by key, ", "-joined, "#id:", single space, LF, ascii', reference=5)
     r5 = rep.rule('C02-R5', 'length is the length of the bytes written after the header', reference=3)
     r7 = rep.rule('C02-R7', 'indentation: b" " * indent before each line of split_lines(encoded content, newline)', reference=1)
+    r13 = rep.rule('C02-R13', 'text is encoded with the strict error handler (unencodable text is rejected, never written altered)', reference=3)
     r8 = rep.rule('C02-R8', 'metadata JSON is dumped with indent=4, sort_keys=True, separators (",", ": ")', reference=1)
     wcls = cls
     for meth, kind, prefix in WRITER_CASES:
-        probs3, probs5, probs7, probs8 = set(), set(), set(), set()
+        probs3, probs5, probs7, probs8, probs13 = set(), set(), set(), set(), set()
         n = 0
         for path, mark, fp, content in writer_call(P, meth, prefix):
             n += 1
@@ -182,6 +183,10 @@ def run(P, rep, tier):
                 elif isinstance(d_, Unk) and not any(x.src and x.src[0] in ('summary-elem', 'summary') and 'split_lines' in str(x.src[1]) for x in src_chain(d_)):
                     probs7.add('indentation precedes pieces that are not lines of split_lines(content, newline)')
             for e in evs:
+                if e.kind == 'encode' and e.data.get('errors') is not None and not (is_concrete(e.data['errors']) and concrete(e.data['errors']) == 'strict'):
+                    probs13.add('text is encoded with the error handler %r: characters the section encoding cannot represent are written as '
+                                'something else instead of being rejected' % (concrete(e.data['errors']) if is_concrete(e.data['errors']) else '<unknown>',))
+            for e in evs:
                 if e.kind == 'json.dumps':
                     kw = e.data['kwargs']
                     if concrete(kw.get('indent')) != 4 or concrete(kw.get('sort_keys')) is not True:
@@ -197,10 +202,10 @@ def run(P, rep, tier):
         m = wcls.find_method(meth)
         if n == 0:
             raise AnalysisError('%s: no completed path' % inst)
-        for probs, rid, tag in ((probs3, r3, 'render'), (probs5, r5, 'length'), (probs7, r7, 'indent'), (probs8, r8, 'json')):
+        for probs, rid, tag in ((probs3, r3, 'render'), (probs5, r5, 'length'), (probs7, r7, 'indent'), (probs8, r8, 'json'), (probs13, r13, 'errors')):
             if probs:
                 rep.violation(rid, '%s:%s' % (meth, tag), m.loc(), '%s: %s' % (inst, '; '.join(sorted(probs))), path=[inst])
-            elif rid in (r3, r5) or (rid is r7 and kind == 'preamble') or (rid is r8 and kind == 'meta'):
+            elif rid in (r3, r5, r13) or (rid is r7 and kind == 'preamble') or (rid is r8 and kind == 'meta'):
                 rep.ok(rid, inst, {'paths': n})
     # caller-supplied options must be rendered whenever the call is accepted
     r10 = rep.rule('C02-R10', 'an option the caller supplies (not None) is always rendered into the header of an accepted call', reference=5)
